@@ -362,8 +362,9 @@ func coordinator(args []string) {
 		samples []json.RawMessage
 		viols   []*Record
 		extra   map[string]interface{}
+		sites   map[uint32]struct{}
 	}
-	a := &agg{hashes: map[uint64]struct{}{}, counts: map[string]int64{}, extra: map[string]interface{}{}}
+	a := &agg{hashes: map[uint64]struct{}{}, counts: map[string]int64{}, extra: map[string]interface{}{}, sites: map[uint32]struct{}{}}
 	var wg sync.WaitGroup
 	stop := make(chan struct{})
 	var stopOnce sync.Once
@@ -425,6 +426,16 @@ func coordinator(args []string) {
 							a.samples = append(a.samples, r.Samples[0])
 						}
 						for k, v := range r.Extra {
+							if k == "sites" {
+								if l, ok := v.([]interface{}); ok {
+									for _, x := range l {
+										if f, ok := x.(float64); ok {
+											a.sites[uint32(f)] = struct{}{}
+										}
+									}
+								}
+								continue
+							}
 							a.extra[k] = v
 						}
 					case "viol":
@@ -576,8 +587,15 @@ func coordinator(args []string) {
 			}
 			if json.Unmarshal(b, &rep) == nil {
 				cov["instrumentation"] = rep
+				if len(a.sites) > 0 {
+					cov["yield_sites_total"] = rep.Counts["stmt"] + rep.Counts["store"] + rep.Counts["loop"]
+					cov["yield_sites_with_a_preemption"] = len(a.sites)
+				}
 			}
 		}
+	}
+	if vouts == nil {
+		cov["violations_found"] = []string{}
 	}
 	if a.samples == nil {
 		cov["samples"] = []string{}
